@@ -1,5 +1,6 @@
 // Type-pair engine of the correspondence harness: one type's encodings read as another type.
 //   --mode xver    C07: (writer version, reader version) pairs of table definitions
+//   --mode xcut    C05: every strict prefix of version A's encoding read as version B
 //   --mode frame   C08: structural mutations of table framing (permuted / duplicated entries,
 //                  changed hash, shrunk / grown declared sizes with and without padding,
 //                  corrupted entry bytes) read by the same definition
@@ -111,6 +112,34 @@ struct PairRunner {
                           " bytes=" + hex(*run.in) + " result=" + r.text + " table-bytes=" + std::to_string(w.bytes.size()));
       }
       c.stat("xver values");
+    }
+  }
+
+  // ---- C05 across versions: every strict prefix of what version A wrote is rejected by version B,
+  // wherever the cut falls (inside an entry B skips, inside padding, between entries) ----
+  void xcut() {
+    define_type<PK::a>(c); define_type<PK::b>(c);
+    for (int i = 0; i < c.nvalues; i++) {
+      TA v{}; fill(rng, v, 0);
+      nop::Serializer<nop::BufferWriter*> sizer;
+      WResult w = write_kind<PA>(W_BUF, v, sizer.GetSize(v), {});
+      if (!w.ok) continue;
+      const std::size_t n = w.bytes.size();
+      static const char* readers[] = {"buf", "ped", "stream"};   // FdReader has no Skip(): it cannot read tables
+      for (std::size_t k = 0; k < n; k++) {
+        if (n > 160 && !c.thorough && k > 40 && k + 40 < n && !rng.chance(15)) continue;
+        std::vector<std::uint8_t> cut(w.bytes.begin(), w.bytes.begin() + static_cast<long>(k));
+        const std::string rk = readers[(k + static_cast<std::size_t>(i)) % 3];
+        TB dest{};
+        RResult r = read_kind<PB>(rk, cut, dest, {});
+        c.line('M', "dec " + tb + " " + rk + " " + hex(cut) + " - -");
+        c.line('I', r.text);
+        c.stat("xcut reads");
+        if (r.ok)
+          c.line('X', "C05 truncated-accepted-cross-version pair=" + ta + "->" + tb + " reader=" + rk + " cut=" + std::to_string(k) + " of=" + std::to_string(n) +
+                          " writer-type=" + PA::sexp + " reader-type=" + PB::sexp + " bytes=" + hex(cut) + " result=" + r.text);
+      }
+      c.stat("xcut values");
     }
   }
 
@@ -291,7 +320,7 @@ void run_pairs(Ctx& c) {
   if constexpr (K < pool::kPairCount) {
     if constexpr (K % NSHARD == SHARD) {
       PairRunner<K> r(c);
-      if (c.mode == "xver") r.xver(); else r.fung();
+      if (c.mode == "xver") r.xver(); else if (c.mode == "xcut") r.xcut(); else r.fung();
     }
     run_pairs<K + 1>(c);
   }
@@ -317,7 +346,7 @@ int main(int argc, char** argv) {
     else if (a == "--values" && i + 1 < argc) c.nvalues = std::atoi(argv[++i]);
     else { std::fprintf(stderr, "bad arg %s\n", a.c_str()); return 2; }
   }
-  if (c.mode == "xver" || c.mode == "fung") run_pairs<0>(c);
+  if (c.mode == "xver" || c.mode == "fung" || c.mode == "xcut") run_pairs<0>(c);
   else if (c.mode == "frame") run_frames<0>(c);
   else { std::fprintf(stderr, "unknown mode\n"); return 2; }
   for (auto& kv : c.stats) c.line('S', kv.first + " " + std::to_string(kv.second));
